@@ -180,6 +180,11 @@ class Merge(Expr):
             # Will be lowered to a BroadcastJoin, which does not shuffle by the keys
             return self._unique_partition_mapping_columns_of_other_side
 
+        if self.merge_indexed_left and self.merge_indexed_right:
+            # A fully-indexed merge aligns both sides on their divisions; nothing
+            # is hash-partitioned (``None`` would claim "by the index")
+            return set()
+
         return {
             tuple(self.left_on) if isinstance(self.left_on, list) else self.left_on,
             tuple(self.right_on) if isinstance(self.right_on, list) else self.right_on,
